@@ -303,3 +303,88 @@ func resultDigest(w *world, res [][]opResult) uint64 {
 }
 
 var _ rtcp.Packet
+
+// ---- cross-run retention (O5 over the whole batch) --------------------------------------------
+//
+// A sample of the values returned in every run is kept for the life of the worker process and
+// re-checked after every later run: a buffer recycled only after many further calls, or by a
+// later run, still has to stay as it was returned.
+
+type stashEntry struct {
+	run, task, op int
+	opName, kind  string
+	b, bc         []byte
+	s, sc         string
+	isStr         bool
+}
+
+var stash []stashEntry
+
+const stashPerRun = 48
+const stashMax = 6000
+
+func stashFrom(s *RunSpec, w *world, runIdx int) {
+	r := &rng{s: s.Seed ^ 0x57a5}
+	type cand struct{ t, i, p int }
+	var cands []cand
+	for t := range w.res {
+		for i := range w.res[t] {
+			res := &w.res[t][i]
+			if !res.done || res.skipped {
+				continue
+			}
+			for pi := range res.parts {
+				p := &res.parts[pi]
+				if (p.kind == ptBytes && p.b != nil && len(p.b) > 0) || (p.kind == ptStr && len(p.s) > 0) {
+					cands = append(cands, cand{t, i, pi})
+				}
+			}
+		}
+	}
+	for n := 0; n < stashPerRun && len(cands) > 0 && len(stash) < stashMax; n++ {
+		j := r.intn(len(cands))
+		c := cands[j]
+		cands[j] = cands[len(cands)-1]
+		cands = cands[:len(cands)-1]
+		op := &s.Tasks[c.t][c.i]
+		p := &w.res[c.t][c.i].parts[c.p]
+		e := stashEntry{run: runIdx, task: c.t, op: c.i, opName: opNames[op.K], kind: kindName(s, w, op)}
+		if p.kind == ptBytes {
+			e.b, e.bc = p.b, p.bc
+		} else {
+			e.isStr = true
+			e.s = p.s
+			e.sc = string(append([]byte(nil), p.s...))
+		}
+		stash = append(stash, e)
+	}
+}
+
+func checkStash(curRun int) []Violation {
+	var out []Violation
+	for i := range stash {
+		e := &stash[i]
+		bad := false
+		var exp, act string
+		if e.isStr {
+			if e.s != e.sc {
+				bad, exp, act = true, fmt.Sprintf("%q", e.sc), fmt.Sprintf("%q", e.s)
+			}
+		} else if !bytes.Equal(e.b[:cap(e.b)], e.bc[:cap(e.bc)]) {
+			bad, exp, act = true, fmt.Sprintf("%x", e.bc[:cap(e.bc)]), fmt.Sprintf("%x", e.b[:cap(e.b)])
+		}
+		if bad {
+			d := firstDiff(exp, act)
+			out = append(out, Violation{Oracle: "O5", Clause: "e: a returned value changed long after it was returned", World: "concurrent",
+				Task: e.task, OpIdx: e.op, Op: e.opName, Kind: e.kind, Verdict: true, Expected: clip(exp, d), Actual: clip(act, d),
+				Detail: fmt.Sprintf("value returned in run %d of this worker process (task %d, entry %d); found changed after run %d", e.run, e.task, e.op, curRun)})
+			// report once
+			if e.isStr {
+				e.sc = e.s
+			} else {
+				e.bc = copyBytesPhys(e.b)
+			}
+		}
+	}
+	return out
+}
